@@ -548,12 +548,12 @@ Qed.
 (* attribute access / method call / unary minus / call: pytype error => run-time error *)
 Definition in_scope_fp (rowsR : list brow) (x : cls) (n : name) : bool :=
   (length rowsR <=? x) ||
-  ((N_NEG <=? n) && negb (excl_fp_mcall (rt_owner rowsR x n) n)).
+  ((N_NEG <=? n) && negb (is_new n) && negb (excl_fp_mcall (rt_owner rowsR x n) n)).
 
 Lemma builtin_entry_transfer : forall rowsT rowsR x n,
   length rowsT = length rowsR -> x < length rowsT ->
   unary_faithful rowsT rowsR = true ->
-  (N_NEG <=? n) = true ->
+  (N_NEG <=? n) = true -> is_new n = false ->
   forall rr br, nth_error rowsR x = Some rr -> find_entry rr n = Some br ->
   exists rt, nth_error rowsT x = Some rt /\
     match find_entry rt n with
@@ -561,13 +561,13 @@ Lemma builtin_entry_transfer : forall rowsT rowsR x n,
     | None => excl_fp_attr (be_owner br) n = true
     end.
 Proof.
-  intros rowsT rowsR x n Hlen Hx Hun Hn rr br ER F.
+  intros rowsT rowsR x n Hlen Hx Hun Hn Hnew rr br ER F.
   destruct (nth_error_heads rowsT x Hx) as [rt ET]. exists rt. split; [exact ET|].
   unfold unary_faithful in Hun. rewrite forallb_forall in Hun. specialize (Hun x (in_heads _ _ Hx)).
   rewrite ET, ER in Hun. rewrite forallb_forall in Hun.
   destruct (find_entry_some _ _ _ F) as [Hin Hnm]. specialize (Hun br Hin). rewrite Hnm in Hun.
   assert (Lt : (n <? N_NEG) = false) by (apply Nat.ltb_ge; apply Nat.leb_le; exact Hn).
-  rewrite Lt in Hun. simpl in Hun.
+  rewrite Lt, Hnew in Hun. simpl in Hun.
   destruct (find_entry rt n) as [bt|].
   - apply orb_prop in Hun. destruct Hun as [Hun|Hun]; [left; exact Hun|right].
     intros C. rewrite C in Hun. exact Hun.
@@ -593,13 +593,14 @@ Proof.
     unfold in_scope_fp in Hscope.
     assert (Lge : (length rowsR <=? x) = false) by (apply Nat.leb_gt; exact Lx').
     rewrite Lge in Hscope. simpl in Hscope. apply andb_prop in Hscope. destruct Hscope as [Hn Hexc].
+    apply andb_prop in Hn. destruct Hn as [Hn Hnew]. apply negb_true_iff in Hnew.
     apply negb_true_iff in Hexc.
     destruct (nth_error_heads rowsR x Lx') as [rr ER].
     unfold attr, mcall, call0.
     rewrite (getattr_builtin _ UR _ _ n ER), (lookup_builtin _ UR _ _ n ER).
     destruct (find_entry rr n) as [br|] eqn:F; simpl.
     2:{ repeat split; reflexivity. }
-    destruct (builtin_entry_transfer rowsT rowsR x n Hlen Lx Hun Hn rr br ER F) as [rt [ET HT]].
+    destruct (builtin_entry_transfer rowsT rowsR x n Hlen Lx Hun Hn Hnew rr br ER F) as [rt [ET HT]].
     rewrite (getattr_builtin _ UT _ _ n ET), (lookup_builtin _ UT _ _ n ET).
     unfold rt_owner in Hexc. rewrite ER, F in Hexc.
     destruct (find_entry rt n) as [bt|]; simpl.
@@ -651,7 +652,7 @@ Qed.
 Lemma presence_caught_lemma : forall (rowsT rowsR : list brow) (UT UR : table) x n,
   shape_ok rowsT rowsR = true -> presence_caught rowsT rowsR = true -> obj_complete rowsT rowsR = true ->
   user_ok (length rowsT) UR UT x ->
-  (length rowsT <=? x) || (N_NEG <=? n) = true ->
+  (length rowsT <=? x) || ((N_NEG <=? n) && negb (is_new n)) = true ->
   (attr (mk_table rowsR UR) x n = Err -> attr (mk_table rowsT UT) x n = Err) /\
   (getattr (mk_table rowsR UR) x n = None -> mcall (mk_table rowsT UT) x n = Err) /\
   (lookup (mk_table rowsR UR) x n = None -> call0 (mk_table rowsT UT) x n = Err).
@@ -665,6 +666,7 @@ Proof.
     assert (Lx' : x < length rowsR) by (rewrite <- Hlen; exact Lx).
     assert (Lge : (length rowsT <=? x) = false) by (apply Nat.leb_gt; exact Lx).
     rewrite Lge in Hscope. rewrite orb_false_l in Hscope.
+    apply andb_prop in Hscope. destruct Hscope as [Hscope Hnew]. apply negb_true_iff in Hnew.
     assert (Lt : (n <? N_NEG) = false) by (apply Nat.ltb_ge; apply Nat.leb_le; exact Hscope).
     destruct (nth_error_heads rowsT x Lx) as [rt ET]. destruct (nth_error_heads rowsR x Lx') as [rr ER].
     unfold presence_caught in Hpres. rewrite forallb_forall in Hpres. specialize (Hpres x (in_heads _ _ Lx)).
@@ -675,7 +677,7 @@ Proof.
     destruct (find_entry rt n) as [bt|] eqn:F.
     2:{ simpl. repeat split; reflexivity. }
     destruct (find_entry_some _ _ _ F) as [Hin Hnm]. specialize (Hpres bt Hin). rewrite Hnm in Hpres.
-    rewrite Lt in Hpres. rewrite orb_false_l in Hpres.
+    rewrite Lt, Hnew in Hpres. simpl in Hpres.
     destruct (find_entry rr n) as [br|] eqn:FR; [|discriminate]. simpl.
     repeat split; discriminate.
   - apply Nat.ltb_ge in Lx.
@@ -710,7 +712,7 @@ Proof.
   rewrite (lookup_builtin _ UR _ _ N_NEG ER), (lookup_builtin _ UT _ _ N_NEG ET).
   destruct (find_entry rt N_NEG) as [bt|] eqn:F; [|reflexivity].
   destruct (find_entry_some _ _ _ F) as [Hin Hnm]. specialize (Hpres bt Hin). rewrite Hnm in Hpres.
-  change (N_NEG <? N_NEG) with false in Hpres. rewrite orb_false_l in Hpres.
+  change (N_NEG <? N_NEG) with false in Hpres. change (is_new N_NEG) with false in Hpres. rewrite !orb_false_l in Hpres.
   destruct (find_entry rr N_NEG) as [br|] eqn:FR; [|discriminate].
   change (negb (N_NEG =? N_NEG)) with false in Hpres. rewrite orb_false_l in Hpres.
   simpl. destruct (be_call0 bt); [|reflexivity]. simpl in Hpres. rewrite Hpres. discriminate.
